@@ -12,8 +12,17 @@ Local Open Scope Z_scope.
    disabled in a fresh directory. *)
 Definition C08_cache_fresh_full : Prop := cache_fresh GENPOL.
 
-(* The unchanged code violates it in three independent ways (each antecedent is a fact about the
-   scraped policy; checks/C08.py reports which antecedents hold and replays the witnesses). *)
+(* MAIN OBLIGATION.  The full-strength statement holds for the code as it is (policy scraped from
+   /repo after the repair 8d3d23d: strict comparison, no reuse of -o files, no reuse under
+   nocheading, hash in the heading, size test).  The five policy facts are checked by computation on
+   Gen.v: if the source goes back on any of them this proof no longer checks. *)
+Theorem C08_cache_fresh : C08_cache_fresh_full.
+Proof. apply cache_fresh_repaired; try reflexivity; left; reflexivity. Qed.
+Print Assumptions C08_cache_fresh.
+
+(* Before the repair the code violated it in three independent ways; the lemmas stay as statements
+   about any policy with the offending switch (their antecedents are false for today's GENPOL, so
+   they are vacuous for it; checks/C08.py replays the three witness histories on every run). *)
 Theorem C08_cache_fresh_refuted_same_second :
   p_le GENPOL = true -> p_del_rewrite GENPOL = false -> ~ C08_cache_fresh_full.
 Proof. exact (refuted_same_second GENPOL). Qed.
@@ -58,15 +67,6 @@ Theorem C08_cache_fresh_after_repair :
               p_head_hash pol = true -> p_size_chk pol = true -> cache_fresh pol.
 Proof. exact cache_fresh_repaired. Qed.
 Print Assumptions C08_cache_fresh_after_repair.
-
-(* ... so once the scraped policy has these three switches the full-strength statement is proved for
-   the code as it is (the antecedents are facts about GENPOL, false today). *)
-Theorem C08_cache_fresh_full_once_repaired :
-  p_le GENPOL = false \/ p_del_rewrite GENPOL = true ->
-  p_reuse_out GENPOL = false -> p_nohead_cache GENPOL = false ->
-  C08_cache_fresh_full.
-Proof. intros; apply cache_fresh_repaired; auto; reflexivity. Qed.
-Print Assumptions C08_cache_fresh_full_once_repaired.
 
 (* The two remaining ingredients are necessary. *)
 Theorem C08_hash_in_heading_needed : forall pol, p_head_hash pol = false -> ~ cache_fresh pol.
